@@ -264,11 +264,13 @@ pub struct GenOpts {
     /// allow sections of 30..300 records occasionally
     pub many: bool,
     pub header_names: bool,
+    /// chance (out of 256) of adding big filler records when `big`
+    pub filler_chance: u32,
 }
 
 impl Default for GenOpts {
     fn default() -> Self {
-        GenOpts { opt: OptMode::Any, big: true, response: None, max_small: 6, many: true, header_names: true }
+        GenOpts { opt: OptMode::Any, big: true, response: None, max_small: 6, many: true, header_names: true, filler_chance: 10 }
     }
 }
 
@@ -408,11 +410,11 @@ pub fn gen_message(src: &mut Src, o: &GenOpts) -> Message {
         };
         m.ar.insert(pos, gen_opt(src));
     }
-    if o.big && src.chance(10) {
+    if o.big && src.chance(o.filler_chance) {
         // filler: push later names beyond offset 16383 / packet beyond 8192 / 65535
         let k = src.range(1, 3);
         for _ in 0..k {
-            let size = *src.pick(&[9000usize, 17000, 30000, 65000, 3000]);
+            let size = *src.pick(&[9000usize, 17000, 30000, 65000, 3000, 8050, 7900]);
             let mut d = vec![0xc0u8; size];
             d[0] = src.u8();
             let r = Record { owner: gen_name(src, &mut ctx), rtype: T_TXT, class: 1, ttl: 7, rdata: Rdata::Opaque(d) };
